@@ -124,3 +124,81 @@ def check_dropped_annotation(annotation: expr | None) -> None:
                 ast_debug_info(annotation)
                 + f"Unable to convert node '{type(node).__name__}'"
             )
+
+
+class _PrivateNameMangler(NodeTransformer):
+    """
+    Inside a class body, an identifier like `__name` (two leading underscores,
+    not ending with two underscores) is a private name of the class:
+    Python (and the symbol table) reads it as `_ClassName__name`.
+    Rewrite these identifiers, so that they keep their meaning when the code
+    of the class body is moved out of the class.
+    """
+
+    def __init__(self):
+        self.class_name: str | None = None
+
+    def mangle(self, name: str) -> str:
+        if (
+            self.class_name is None
+            or not name.startswith("__")
+            or name.endswith("__")
+            or "." in name
+        ):
+            return name
+        class_name = self.class_name.lstrip("_")
+        if not class_name:
+            return name
+        return "_" + class_name + name
+
+    def visit_ClassDef(self, node: ClassDef):
+        # The name, the decorators, the bases and the keywords of a class
+        # belong to the enclosing class (if any)
+        private_name = self.mangle(node.name)
+        if private_name != node.name:
+            node.private_name = private_name  # type: ignore
+        node.decorator_list = [self.visit(_expr) for _expr in node.decorator_list]
+        node.bases = [self.visit(_expr) for _expr in node.bases]
+        node.keywords = [self.visit(_keyword) for _keyword in node.keywords]
+        outer_class_name = self.class_name
+        self.class_name = node.name
+        node.body = [self.visit(_stmt) for _stmt in node.body]
+        self.class_name = outer_class_name
+        return node
+
+    def visit_FunctionDef(self, node: FunctionDef):
+        private_name = self.mangle(node.name)
+        if private_name != node.name:
+            node.private_name = private_name  # type: ignore
+        return self.generic_visit(node)
+
+    def visit_Name(self, node: Name):
+        node.id = self.mangle(node.id)
+        return node
+
+    def visit_Attribute(self, node: Attribute):
+        node.attr = self.mangle(node.attr)
+        return self.generic_visit(node)
+
+    def visit_arg(self, node: arg):
+        node.arg = self.mangle(node.arg)
+        return self.generic_visit(node)
+
+    def visit_Global(self, node: Global):
+        node.names = [self.mangle(_name) for _name in node.names]
+        return node
+
+    def visit_Nonlocal(self, node: Nonlocal):
+        node.names = [self.mangle(_name) for _name in node.names]
+        return node
+
+    def visit_alias(self, node: alias):
+        # only the name which is bound is private, not the imported one
+        bound_name = node.name if node.asname is None else node.asname
+        if self.mangle(bound_name) != bound_name:
+            node.asname = self.mangle(bound_name)
+        return node
+
+
+def mangle_private_names(root: Module) -> Module:
+    return _PrivateNameMangler().visit(root)
